@@ -28,7 +28,7 @@ def unwrap(v: Val) -> Val:
     return _arr(v)
 
 
-def check_initial(ctx, st: Strategy, clsname: str):
+def check_initial(ctx, st: Strategy, clsname: str, with_x: bool = True):
     """the result array starts as the piecewise-constant oversampling of the averages, extended by constants"""
     y = st.Y_ext
     ok = call_is(y, 'extend_constant')
@@ -38,6 +38,8 @@ def check_initial(ctx, st: Strategy, clsname: str):
         and veq(y.kw('direction'), Const('both'))
     ctx.check(ok, 'C05.1', f"{clsname}: result array initialised as extend_constant(oversample_piecewise_constant(self.y, n), n, 'both')",
               show(y, 300), st.rfa.loc(), st.rfa.qualname, 'init-z')
+    if not with_x:
+        return
     x = st.X_ext
     okx = call_is(x, 'extend_linspace')
     innerx = unwrap(x.kw('a')) if okx else None
@@ -305,13 +307,16 @@ def check_other_strategies(ctx):
         if okv:
             apps = [t for t in walk_vals(ry) if isinstance(t, Term) and t.head == 'apply']
             okv = False
+            if not isinstance(rx, Num):
+                from ..values import term_as_num as _tn
+                rx = _tn(rx, True, 'ndarray')
             for t in apps:
                 f = t.args[0]
                 if isinstance(f, Term) and f.head == 'lib:scipy.interpolate.CubicSpline' and targ(f, 'x', 0) is not None and \
                         targ(f, 'y', 1) is not None and \
                         veq(unwrap(targ(f, 'x', 0)), unwrap(st.X0)) and veq(unwrap(targ(f, 'y', 1)), unwrap(st.Y0)) and len(t.args) == 2:
                     g = t.args[1]
-                    okv = isinstance(g, Num) and isinstance(rx, Num) and g.r == rx.r
+                    okv = okv or (isinstance(g, Num) and isinstance(rx, Num) and g.r == rx.r)
         ok = ok and okv
     ctx.check(ok, 'C05.5', 'CubicSplineRFA: y[i] = CubicSpline(self.x, self.y)(grid[i]) on the grid that is returned', detail,
               st.rfa.loc(), st.rfa.qualname, 'cubic')
@@ -333,7 +338,7 @@ def run(ctx):
             raise AnalysisError(f"C05: {clsname} not canonicalisable: {st.issues[:3]}")
         if st.X_ext is None or st.Y_ext is None:
             raise AnalysisError(f"C05: {clsname}.rfa does not build its arrays through extend_linspace / extend_constant")
-        check_initial(ctx, st, clsname)
+        check_initial(ctx, st, clsname, with_x=False)      # the abscissa grid is C04's obligation
         check_plateau(ctx, st, clsname, adaptive, exp)
         check_borders(ctx, st, clsname, adaptive, exp)
         total += check_constants(ctx, clsname)
